@@ -124,3 +124,56 @@ def r51_no_unbound_names(ctx):
                       '%s() can be called (line %s) before `%s` is assigned in %s(): NameError'
                       % (f.name, sorted(x.line for x in early)[0] if early else '?', v, enc.name), nontrivial=False)
     ctx.floor(R, 'name uses checked', n, 600)
+
+
+def r53_rule_interface(ctx):
+    """every attribute that the election, the record or the driver reads from the rule object (E.rule.X, self.rule.X) exists for
+    EVERY registered rule class: a method or class attribute somewhere in its MRO, or `self.X = ...` in its __init__/options().
+    (qpq derives from the abstract ElectionRule directly, not from a method family: an attribute given to MethodWIGM and
+    MethodMeek only is missing there.)"""
+    R = 'R53'
+    repo = ctx.repo
+    reads = {}
+    for f in repo.funcs.values():
+        if f.module.name.startswith('droop.rules.'):
+            continue
+        for n in f.own_nodes():
+            if isinstance(n, ast.Attribute) and isinstance(n.ctx, ast.Load):
+                base = n.value
+                if (isinstance(base, ast.Attribute) and base.attr == 'rule') or ctx.canon(base, f) == 'E.rule':
+                    # self.rule / E.rule / self.E.rule
+                    if isinstance(base, ast.Attribute) and base.attr == 'rule' and not (ctx.canon(base, f) == 'E.rule' or unparse(base) in ('self.rule', 'E.rule', 'self.E.rule')):
+                        continue
+                    # guarded by `if hasattr(<rule>, '<attr>')`: optional attribute
+                    guarded = False
+                    par, child = n.parent, n
+                    while par is not None and par is not f.node:
+                        if isinstance(par, ast.If) and any(child is b_ for b_ in par.body) and any(
+                                isinstance(c_, ast.Call) and isinstance(c_.func, ast.Name) and c_.func.id == 'hasattr' and len(c_.args) == 2
+                                and isinstance(c_.args[1], ast.Constant) and c_.args[1].value == n.attr for c_ in ast.walk(par.test)):
+                            guarded = True
+                        child, par = par, par.parent
+                    if not guarded:
+                        reads.setdefault(n.attr, []).append((f, n))
+    n = 0
+    for attr, sites in sorted(reads.items()):
+        for ri in rules(ctx):
+            n += 1
+            defined = False
+            for kls in ri.cls.mro():
+                if attr in kls.methods or attr in kls.class_attrs:
+                    defined = True
+                    break
+                for mname in ('__init__', 'options'):
+                    m = kls.methods.get(mname)
+                    if m is not None and any(isinstance(x, ast.Attribute) and isinstance(x.ctx, ast.Store) and x.attr == attr
+                                             and isinstance(x.value, ast.Name) and x.value.id == 'self' for x in m.own_nodes()):
+                        defined = True
+                if defined:
+                    break
+            f0, n0 = sites[0]
+            ctx.check(defined, R, n0, f0, 'the rule attribute `%s` read outside the rules exists for rule class %s' % (attr, ri.cls.qualname),
+                      'defined in the MRO of %s' % ri.cls.name,
+                      '%s reads rule.%s, which %s (MRO: %s) does not define: AttributeError when an election is built or rendered with rule %s'
+                      % (f0.qualname, attr, ri.cls.qualname, ' -> '.join(k.name for k in ri.cls.mro()), '/'.join(ri.names)), nontrivial=False)
+    ctx.floor(R, 'rule attribute x rule class pairs', n, 40)
